@@ -7,6 +7,7 @@ T4  binding patterns (let, for, for-join) are shown irrefutable before the state
 T5  recursion guard: tested before, set around, cleared after the body is checked
 T6  scoping: pushes and pops balance on accepting paths; every match clause is checked in its own scope
 T10 as_concrete_type looks every name a type mentions up (struct / enum names, consts used as array sizes) on every accepting path
+T12 a block takes the type of its last statement only (assigned on the `index == len - 1` edge, or afresh for every statement)
 T11 max / min / + / - const expressions are only accepted for consts whose declared type is examined (numeric)
 T9  const expressions are checked against the consts defined before them (a local map filled in source order), never against the
     program's complete definition map (the compiler resolves consts in source order)
@@ -852,5 +853,64 @@ def rule_t11(ctx):
     return res
 
 
+def rule_t12(ctx):
+    """The type of a block is the type of its LAST statement if that is an expression, else ()."""
+    from . import C02
+    res = RuleResult("T12", "a block takes the type of its last statement only (an expression in the middle of a block does not type it)")
+    fid = "check::type_check_block"
+    body = ctx.body(fid)
+    # the local that ends up as the second component of the Ok((stmts, ty)) result
+    rets = []
+    for blk in body.blocks:
+        for st in blk["stmts"]:
+            if st["k"] == "assign" and st["rv"]["k"] == "aggregate" and st["rv"].get("akind") == "tuple" and len(st["rv"]["ops"]) == 2 and "ast::Type" in st["rv"]["ops"][1].get("place", {}).get("ty", ""):
+                rets.append(mir.base_local(body, st["rv"]["ops"][1]))
+    rets = [r for r in rets if r is not None]
+    if len(set(rets)) != 1:
+        raise AnchorMissing("T12: cannot identify the block-type local of type_check_block (%s)" % rets)
+    ty_local = rets[0]
+    loops = body.loops()
+    writes = []
+    for b, blk in enumerate(body.blocks):
+        if blk["cleanup"]:
+            continue
+        for st in blk["stmts"]:
+            if st["k"] == "assign" and st["place"]["l"] == ty_local and not st["place"]["p"] and any(b in lp["body"] for lp in loops):
+                writes.append((b, st))
+        t = blk["term"]
+        if t and t["k"] == "call" and t["dest"]["l"] == ty_local and not t["dest"]["p"] and any(b in lp["body"] for lp in loops):
+            writes.append((b, t))
+    if not writes:
+        raise AnchorMissing("T12: the block type is never assigned inside the statement loop")
+    lp = min([l for l in loops if writes[0][0] in l["body"]], key=lambda l: len(l["body"]))
+    # form A: every write is on the equal edge of `index == len - 1`
+    last_edges = set()
+    for b in lp["body"]:
+        for st in body.blocks[b]["stmts"]:
+            if st["k"] == "assign" and st["rv"]["k"] == "binop" and st["rv"]["op"] in ("Eq", "Ne"):
+                sides = [body.deep_sources(st["rv"]["l"], 3), body.deep_sources(st["rv"]["r"], 3)]
+                has_len = [any(r[0] == "call" and mir.last_seg(r[2] or "") == "len" for (r, p) in sd) and any(r[0] == "rv" for (r, p) in sd) for sd in sides]
+                has_idx = [any(r[0] in ("index", "iter", "call") and ("enumerate" in (r[2] if len(r) > 2 and isinstance(r[2], str) else "") or r[0] == "index") for (r, p) in sd) for sd in sides]
+                if (has_len[0] and has_idx[1]) or (has_len[1] and has_idx[0]):
+                    last_edges |= mir.equality_edges(body, st)
+    form_a = bool(last_edges) and all(C02._dominated_by_edges(body, last_edges, b) for b, _ in writes)
+    # form B: the type is (re)assigned for every statement that is kept, so a later non-expression statement resets it
+    pushes = [b for b in lp["body"] if body.term(b) and body.term(b)["k"] == "call" and mir.last_seg(mir.callee(body.term(b)) or "") == "push"
+              and "ast::Stmt<ast::Type>" in body.term(b)["args"][1].get("place", {}).get("ty", "")]
+    form_b = False
+    if pushes:
+        wb = {b for b, _ in writes}
+        latches = [b for b in lp["body"] if lp["header"] in body.succs(b)]
+        inl = lambda x: [y for y in body.succs(x) if y in lp["body"] and not body.blocks[y]["cleanup"]]
+        # every iteration that keeps a statement passes a write
+        form_b = all(not (body.path(lp["header"], [pb], blocked=wb, succ=inl) and body.path(pb, latches, blocked=wb, succ=inl)) for pb in pushes)
+    if form_a or form_b:
+        res.ok({"verdict": "block type assigned %s" % ("only for the statement at index len - 1" if form_a else "afresh for every statement")})
+    else:
+        res.bad(Finding("T12", fid, "an expression statement in the middle of a block types the block",
+                        "the block type is taken from any expression statement and never reset: `{ e; let y = ..; }` gets the type of `e` instead of (), so ill-typed branches / bindings are accepted", writes[0][1]["sp"]))
+    return res
+
+
 def run(ctx):
-    return ctx.run_rules([rule_t1, rule_t2, rule_t3, rule_t4, rule_t5, rule_t6, rule_t7, rule_t8, rule_t9, rule_t10, rule_t11])
+    return ctx.run_rules([rule_t1, rule_t2, rule_t3, rule_t4, rule_t5, rule_t6, rule_t7, rule_t8, rule_t9, rule_t10, rule_t11, rule_t12])
